@@ -77,6 +77,10 @@ func c14Join(w *mon.W, idx int) {
 		w.Fail("Join/wrote-outside-len-of-argument", mon.D{"width": width, "n": n})
 		return
 	}
+	if overlapW(got, vals) {
+		w.Fail("Join/result-is-a-view-of-the-argument", mon.D{"width": width, "n": n, "len_result": len(got), "cap_result": cap(got)})
+		return
+	}
 	// oracle: bit j*w+k = bit k of values[j]
 	nbits := n * int(width)
 	exp := make([]uint64, (nbits+63)/64)
@@ -140,6 +144,10 @@ func c14Join(w *mon.W, idx int) {
 func c14CheckSlice(w *mon.W, words, orig []uint64, from, to int) bool {
 	w.Op, w.A, w.B = "Slice", int64(from), int64(to)
 	got := bitmap.Slice(words, int32(from), int32(to))
+	if overlapW(got, words) {
+		w.Fail("Slice/result-is-a-view-of-the-argument", mon.D{"nwords": len(orig), "from": from, "to": to, "len_result": len(got), "cap_result": cap(got)})
+		return false
+	}
 	n := to - from
 	expLen := (n + 63) / 64
 	if len(got) != expLen {
